@@ -283,8 +283,29 @@ class HashSeeds(ch.DirectUnit):
             texts.append(open(f, encoding='utf8').read())
         return texts
 
+    def isolated_vs_sequence(self, texts):
+        """every text compiled ALONE in a fresh process must give the text it gives as the n-th compilation of one process"""
+        import json as _json
+        env = dict(os.environ, PYTHONHASHSEED='0')
+        p = subprocess.run([sys.executable, '-c', _SUB], input=_json.dumps(list(texts)), capture_output=True, text=True, env=env, timeout=300)
+        if p.returncode != 0:
+            raise RuntimeError('subprocess failed: ' + p.stderr[-300:])
+        seq = _json.loads(p.stdout)
+        for i, t in enumerate(texts):
+            q = subprocess.run([sys.executable, '-c', _SUB], input=_json.dumps([t]), capture_output=True, text=True, env=env, timeout=120)
+            if q.returncode != 0:
+                raise RuntimeError('subprocess failed: ' + q.stderr[-300:])
+            if _json.loads(q.stdout)[0] != seq[i]:
+                return t
+        return None
+
     def run(self):
         texts = self.texts()
+        bad = self.isolated_vs_sequence(texts)
+        if bad is not None:
+            why = 'compiled alone in a fresh process the text differs from what it gives after other compilations in one process'
+            return dict(verdict='violated', counterexample={'source': bad, 'seeds': 0, 'kind': 'sequence'}, message=why, state='SEQUENCE',
+                        replay=dict(native_result=2, info={'reason': why}))
         ok, why = hashseed_run(texts, range(self.u['nseeds']))
         if not ok:
             # find one offending text for the replay
@@ -301,6 +322,10 @@ class HashSeeds(ch.DirectUnit):
                                     seeds=self.u['nseeds']), sample=dict(result=why))
 
     def run_native(self, args):
+        if args.get('kind') == 'sequence':
+            bad = self.isolated_vs_sequence(self.texts())
+            self.info['reason'] = 'sequence-dependent output for %r' % (bad,)
+            return 2 if bad is not None else 0
         ok, why = hashseed_run([args['source']], range(args.get('seeds', 8)))
         self.info['reason'] = why
         return 0 if ok else 2
